@@ -1353,6 +1353,10 @@ class Real(base.SimpleAsn1Type):
                     )
             if self._inf and value in self._inf:
                 return value
+            elif value != value:
+                raise error.PyAsn1Error(
+                    'Bad real value syntax: %s' % (value,)
+                )
             else:
                 e = 0
                 while int(value) != value:
